@@ -481,9 +481,20 @@ class Interp:
                         for i, s in enumerate(kind.leaf_sorts())]
         v = V(kind, [z3.Select(a, ref.t) for a in arrs])
         self.assume_valid(v)
+        base = kind.inner if isinstance(kind, K.Opt) else kind
+        if heap is None and not self.spec and isinstance(base, (K.Seq, K.Set, K.Map, K.Rec)):
+            v.origin = (key, kind, ref)     # the object's own container, not a copy
         return v
 
     def heap_write(self, ref, key, kind, val):
+        org = getattr(val, 'origin', None)
+        if org is not None and not self.spec:
+            okey, okind, oref = org
+            if not (okey == key and oref.t.eq(ref.t)):
+                # the value-semantic encoding of lists/dicts/sets is only faithful while every container has one owner
+                self.check(z3.BoolVal(False), 'no-shared-container[%s <- %s]' % (key, okey),
+                           'a list/dict/set read from %s is stored in %s without being copied: later in-place changes '
+                           'through one object would silently change the other' % (okey, key), None)
         val = K.coerce(val, kind)
         self.p.heap_epoch += 1
         arrs = self.heap_arrays(key, kind)
